@@ -767,10 +767,7 @@ func (s *pstate) epLeaf() string {
 }
 
 func fieldNameOf(fa *ssa.FieldAddr) string {
-	if st := structOf(fa.X.Type()); st != nil && fa.Field < st.NumFields() {
-		return st.Field(fa.Field).Name()
-	}
-	return "f" + strconv.Itoa(fa.Field)
+	return fieldNameIn(fa.X.Type(), fa.Field)
 }
 
 // eval computes the term of a value-producing instruction (and records effects of impure calls).
@@ -800,11 +797,7 @@ func (s *pstate) eval(v ssa.Value) *Term {
 	case *ssa.FieldAddr:
 		return nodeL("fa", fieldNameOf(x), s.term(x.X))
 	case *ssa.Field:
-		name := "f" + strconv.Itoa(x.Field)
-		if st, ok := types.Unalias(x.X.Type()).Underlying().(*types.Struct); ok && x.Field < st.NumFields() {
-			name = st.Field(x.Field).Name()
-		}
-		return nodeL("field", name, s.term(x.X))
+		return nodeL("field", fieldNameIn(x.X.Type(), x.Field), s.term(x.X))
 	case *ssa.IndexAddr:
 		return node("ia", s.term(x.X), s.term(x.Index))
 	case *ssa.Index:
@@ -814,6 +807,9 @@ func (s *pstate) eval(v ssa.Value) *Term {
 	case *ssa.UnOp:
 		switch x.Op {
 		case token.MUL:
+			if pv := s.constCell(x.X); pv != nil {
+				return s.term(pv) // a captured parameter: the cell is written once, at function entry
+			}
 			return nodeL("load", s.loadVersion(x.X, x.Type()), s.term(x.X))
 		case token.NOT:
 			return mkNot(s.term(x.X))
@@ -875,6 +871,75 @@ func (s *pstate) eval(v ssa.Value) *Term {
 		return s.callTerm(x, &x.Call, x.Pos())
 	}
 	return leaf("?", fmt.Sprintf("%T", v))
+}
+
+// constCell: addr is (possibly through free variables of inlined closures) a local cell that holds a parameter captured
+// by closures: one store in the whole program text, in the entry block of the allocating function, of a Parameter; every
+// other use is a load or a closure binding whose body only loads. Loads of such a cell are the parameter itself.
+func (s *pstate) constCell(addr ssa.Value) ssa.Value {
+	for d := 0; d < 8; d++ {
+		fv, ok := addr.(*ssa.FreeVar)
+		if !ok {
+			break
+		}
+		fi := s.frameIndexOf(fv.Parent())
+		if fi <= 0 || s.frames[fi].closure == nil {
+			return nil
+		}
+		found := false
+		for j, x := range fv.Parent().FreeVars {
+			if x == fv && j < len(s.frames[fi].closure.Bindings) {
+				addr, found = s.frames[fi].closure.Bindings[j], true
+			}
+		}
+		if !found {
+			return nil
+		}
+	}
+	al, ok := addr.(*ssa.Alloc)
+	if !ok || al.Referrers() == nil {
+		return nil
+	}
+	var val ssa.Value
+	var onlyLoads func(v ssa.Value, depth int) bool
+	onlyLoads = func(v ssa.Value, depth int) bool {
+		if depth > 4 || v.Referrers() == nil {
+			return false
+		}
+		for _, r := range *v.Referrers() {
+			switch x := r.(type) {
+			case *ssa.Store:
+				if v != ssa.Value(al) || x.Addr != v || val != nil || x.Block().Index != 0 {
+					return false
+				}
+				if _, isParam := x.Val.(*ssa.Parameter); !isParam {
+					return false
+				}
+				val = x.Val
+			case *ssa.UnOp:
+				if x.Op != token.MUL {
+					return false
+				}
+			case *ssa.DebugRef:
+			case *ssa.MakeClosure:
+				cf := x.Fn.(*ssa.Function)
+				for j, b := range x.Bindings {
+					if b == v {
+						if j >= len(cf.FreeVars) || !onlyLoads(cf.FreeVars[j], depth+1) {
+							return false
+						}
+					}
+				}
+			default:
+				return false
+			}
+		}
+		return true
+	}
+	if !onlyLoads(al, 0) || val == nil {
+		return nil
+	}
+	return val
 }
 
 // allocOrdinal numbers the allocations of a function in block order, so that an allocation has one name on every path.
@@ -1011,7 +1076,7 @@ func (s *pstate) callTerm(v *ssa.Call, c *ssa.CallCommon, pos token.Pos) *Term {
 		// dynamic call through a func value: opaque and (A1) free of effects on the container; callbacks through a
 		// parameter are recorded as effects so that "visits every element" is visible in the normal form
 		t := node("dyn", append([]*Term{s.term(c.Value)}, args...)...)
-		if _, isParam := c.Value.(*ssa.Parameter); isParam && s.epoch >= 0 {
+		if isParam := t.Args[0].Op == "p"; isParam && s.epoch >= 0 {
 			s.effects = append(s.effects, t)
 			if !s.pos.IsValid() {
 				s.pos = pos
